@@ -2162,6 +2162,9 @@ func (d *Document) parseParagraph(decoder *xml.Decoder, startElement xml.StartEl
 				if run != nil {
 					paragraph.Runs = append(paragraph.Runs, *run)
 				}
+			case "hyperlink", "smartTag", "ins", "fldSimple", "sdt", "sdtContent":
+				// 这些元素只是运行的容器（超链接、智能标记、修订插入、简单域、内容控件）：
+				// 不跳过，继续读取其中的运行，避免丢失它们承载的正文文本
 			default:
 				// 跳过其他元素
 				if err := d.skipElement(decoder, t.Name.Local); err != nil {
